@@ -393,7 +393,7 @@ func bxvCompareParse(in string, fails *[]bxvFailure) {
 // ---- C15: bounded exhaustive comparison over token sequences ---------------------------
 
 var bxvLangTokens = []string{"a", "b1", "not", "and", "or", "in", "is", "empty", "contains", "matches", "any", "all", "as", "nota", "anyx", "inx", "_", ",", ".", "{", "}", "(", ")", "[", "]",
-	"==", "!=", "0", "12", "1.5", "-1", "01", "1.", "\"x\"", "`y`", "\"/a/b\"", "\"/a~1b\"", "\"\"", "\"x", "`y", "\"\\q\"", ".0", ".b", "[\"k\"]", "[`k`]", "\xff"}
+	"==", "!=", "0", "12", "1.5", "-1", "01", "1.", "\"x\"", "`y`", "\"/a/b\"", "\"/a~1b\"", "\"\"", "\"x", "`y", "\"\\q\"", "\"\\\\\"", "\"a\\\\\"", "\"\\\"\"", ".0", ".b", "[\"k\"]", "[`k`]", "\xff"}
 
 var bxvCoreTokens = []string{"a", "not", "and", "or", "in", "is", "empty", "any", "as", "x", ",", "{", "}", "(", ")", "==", "1", "\"s\"", "_", "matches"}
 
@@ -509,7 +509,7 @@ func bxvLangCases(fails *[]bxvFailure, stats map[string]int, samples *[]string) 
 		"any a as x { x == 1 }", "all a.b as i, v { v == 1 }", "any a as _, v { v == 1 }", "any a as i, _ { i == 1 }", "any a as x{x == 1}", "any a as x { x == 1 } and b == 2", "(any a as x { x == 1 }) or b == 2",
 		"b == 2 or any a as x { x == 1 }", "b == 2 and any a as x { x == 1 }", "any a as x { any x as y { y == 1 } }", "anya as x { x == 1 }", "any a asx { x == 1 }", "any a as x, { x == 1 }", "notes == 3", "nota == 1",
 		"not(a == 1)", "a == 1 andb == 2", "a == 1 and not b == 2", "inx == 1", "a == 1 or", "or a == 1", "a ==", "== 1", "a == 1 b == 2", "a in", "in a", "x in 1", "a matches", "is empty", "a is", "a is not",
-		"a == \"\\q\"", "a == \"a\\\"", "a[\"\\x\"] == 1", "a == \"\xff\"", "a == `\xc3\x28`", "\xff", "a\x00 == 1", "é == 1", "a == é", "a == \"é\"",
+		"a == \"\\q\"", "a == \"a\\\"", "a == \"C:\\\\\"", "a == \"C:\\\\\" and b == \"x\"", "a == \"\\\\\\\"\"", "a == \"\\\\\\\\\"", "a[\"k\\\\\"] == 1", "a == \"\\n\\t\\\\\"", "a[\"\\x\"] == 1", "a == \"\xff\"", "a == `\xc3\x28`", "\xff", "a\x00 == 1", "é == 1", "a == é", "a == \"é\"",
 	} {
 		try(s)
 	}
@@ -872,7 +872,7 @@ func bxvRoundTripCases(fails *[]bxvFailure, stats map[string]int, samples *[]str
 
 func bxvSpellingCases(fails *[]bxvFailure, stats map[string]int, samples *[]string) int {
 	n := 0
-	keys := []string{"a", "b1", "0", "12", "x-y", "~1", "~0", "~", "a~b", "A", "é", "a:b", "a|b", "k.dot"}
+	keys := []string{"a", "b1", "0", "12", "01", "007", "x-y", "~1", "~0", "~", "a~b", "A", "é", "a:b", "a|b", "k.dot"}
 	mkData := func(path []string) interface{} {
 		var d interface{} = "leaf"
 		for i := len(path) - 1; i >= 0; i-- {
